@@ -264,7 +264,7 @@ def run(ctx: Ctx) -> None:
     # last segment and the class it belongs to is the segment before it: the segment indexes
     # that feed the comparison are anchored at the right end.  (The comparison itself is a
     # run-time value and is not decided.)
-    ctx.rule("R3.7", "constructor/destructor recognition: compared names are right-anchored segments (own name [-1], enclosing class [-2] or the class block's own [-1])", minimum=4)
+    ctx.rule("R3.7", "constructor/destructor recognition: compared names are right-anchored segments (own name [-1], enclosing class [-2] or the class block's own [-1])", minimum=2)
     pd = pm.fn("_parse_decl")
     dcfg = pm.cfg("_parse_decl")
     drd = reaching_defs(dcfg)
@@ -297,6 +297,12 @@ def run(ctx: Ctx) -> None:
                 val = d.stmt.value
                 if isinstance(val, ast.Constant) and val.value is None:
                     continue
+                is_name_of_segment = isinstance(val, ast.Call) and norm(val.func) == "getattr" and len(val.args) >= 2 and isinstance(val.args[1], ast.Constant) and val.args[1].value == "name"
+                if not is_name_of_segment and not (isinstance(val, ast.Attribute) and val.attr == "name"):
+                    ctx.ob("R3.7", f"parser:CxxParser._parse_decl|{var} from `{short(val, 50)}`", False,
+                           msg=f"`{short(d.stmt, 70)}` compares something other than the plain `.name` of a segment (e.g. a formatted name with its template arguments): 'struct Box<int> {{ Box(); ~Box(); }}' no longer has its constructor and destructor recognised",
+                           node=d.stmt, mod=mod)
+                    continue
                 subs = [x for x in ast.walk(val) if isinstance(x, ast.Subscript)]
                 idx = None
                 if len(subs) == 1:
@@ -306,6 +312,11 @@ def run(ctx: Ctx) -> None:
                     elif isinstance(sl, ast.Constant):
                         idx = sl.value
                 base = norm(subs[0].value) if subs else "?"
+                if subs and isinstance(subs[0].value, ast.Name):
+                    # an alias of a segments list: look at what it stands for
+                    for st_ in walk_local(pd):
+                        if isinstance(st_, ast.Assign) and any(isinstance(t, ast.Name) and t.id == subs[0].value.id for t in st_.targets) and norm(st_.value).endswith(".segments"):
+                            base = norm(st_.value)
                 own_class = "class_decl.typename.segments" in base
                 want = -1 if (var == own_var or own_class) else -2
                 ctx.ob("R3.7", f"parser:CxxParser._parse_decl|{var} from `{short(subs[0], 50) if subs else short(val, 50)}`", idx == want,
